@@ -139,3 +139,95 @@ Qed.
 
 Lemma dec_target_plain s : no_dot s = true -> dec_target s = None.
 Proof. intro H. unfold dec_target. rewrite (split_dots_no_dot s H). reflexivity. Qed.
+
+(* merging the entries of a link list that share a source: a list whose sources are already distinct (every internal
+   Routine: the links are a mapping) is left as it is, and the result always has distinct sources *)
+Lemma add_link_fresh {T} (acc : list (string * list T)) s ts :
+  ~ In s (map fst acc) -> add_link acc s ts = (acc ++ [(s, ts)])%list.
+Proof.
+  induction acc as [|[s' ts'] acc IH]; cbn; intro H; [reflexivity|].
+  destruct (String.eqb s' s) eqn:E.
+  - apply String.eqb_eq in E. exfalso. apply H. left. exact E.
+  - rewrite IH; [reflexivity|]. intro Hin. apply H. right. exact Hin.
+Qed.
+
+Lemma merge_links_aux {T} (li : list (string * list T)) : forall acc,
+  NoDup (map fst (acc ++ li)%list) ->
+  fold_left (fun a l => add_link a (fst l) (snd l)) li acc = (acc ++ li)%list.
+Proof.
+  induction li as [|[s ts] li IH]; intros acc H; cbn [fold_left fst snd].
+  - rewrite app_nil_r. reflexivity.
+  - rewrite add_link_fresh.
+    + rewrite IH; rewrite <- app_assoc; [reflexivity|exact H].
+    + rewrite map_app in H. cbn in H. apply NoDup_remove_2 in H. intro Hin. apply H. apply in_or_app. left. exact Hin.
+Qed.
+
+Theorem merge_links_distinct {T} (li : list (string * list T)) : NoDup (map fst li) -> merge_links li = li.
+Proof. intro H. unfold merge_links. rewrite merge_links_aux; [reflexivity|exact H]. Qed.
+
+Lemma add_link_keys {T} (acc : list (string * list T)) s ts :
+  map fst (add_link acc s ts) = if existsb (String.eqb s) (map fst acc) then map fst acc else (map fst acc ++ [s])%list.
+Proof.
+  induction acc as [|[s' ts'] acc IH]; cbn; [reflexivity|].
+  rewrite (String.eqb_sym s s'). destruct (String.eqb s' s) eqn:E; cbn; [reflexivity|].
+  rewrite IH. destruct (existsb (String.eqb s) (map fst acc)); reflexivity.
+Qed.
+
+Lemma add_link_nodup {T} (acc : list (string * list T)) s ts : NoDup (map fst acc) -> NoDup (map fst (add_link acc s ts)).
+Proof.
+  intro H. rewrite add_link_keys. destruct (existsb (String.eqb s) (map fst acc)) eqn:E; [exact H|].
+  assert (Hnot : ~ In s (map fst acc)).
+  { intro Hin. assert (X : existsb (String.eqb s) (map fst acc) = true) by (apply existsb_exists; exists s; split; [exact Hin|apply String.eqb_refl]).
+    congruence. }
+  clear E. induction (map fst acc) as [|a l IHl]; cbn.
+  - constructor; [intros []|constructor].
+  - inversion H as [|? ? Ha Hl]; subst. constructor.
+    + intro Hin. apply in_app_or in Hin. destruct Hin as [Hin|[Hin|[]]]; [exact (Ha Hin)|]. subst a. apply Hnot. left. reflexivity.
+    + apply IHl; [exact Hl|]. intro Hin. apply Hnot. right. exact Hin.
+Qed.
+
+Theorem merge_links_nodup {T} (li : list (string * list T)) : NoDup (map fst (merge_links li)).
+Proof.
+  unfold merge_links.
+  assert (G : forall acc, NoDup (map fst acc) -> NoDup (map fst (fold_left (fun a l => add_link a (fst l) (snd l)) li acc))).
+  { induction li as [|l li IH]; intros acc H; cbn [fold_left]; [exact H|]. apply IH, add_link_nodup, H. }
+  apply G. constructor.
+Qed.
+
+(* nothing is lost: the targets reachable from a source after merging are all the targets listed for it, in order *)
+Definition targets_of {T} (s : string) (li : list (string * list T)) : list T :=
+  flat_map (fun l => if String.eqb (fst l) s then snd l else []) li.
+
+Lemma targets_of_notin {T} (li : list (string * list T)) s : ~ In s (map fst li) -> targets_of s li = [].
+Proof.
+  induction li as [|[s' ts'] li IH]; cbn [targets_of flat_map map fst snd]; intro H; [reflexivity|].
+  destruct (String.eqb s' s) eqn:E.
+  - apply String.eqb_eq in E. exfalso. apply H. left. exact E.
+  - apply IH. intro Hin. apply H. right. exact Hin.
+Qed.
+
+Lemma add_link_targets {T} (acc : list (string * list T)) s ts s0 : NoDup (map fst acc) ->
+  targets_of s0 (add_link acc s ts) = (targets_of s0 acc ++ (if String.eqb s s0 then ts else []))%list.
+Proof.
+  induction acc as [|[s' ts'] acc IH]; intro ND; cbn [add_link targets_of flat_map fst snd].
+  - rewrite app_nil_r. reflexivity.
+  - cbn [map fst] in ND. inversion ND as [|? ? Hnot ND']; subst.
+    destruct (String.eqb s' s) eqn:E; cbn [flat_map fst snd].
+    + apply String.eqb_eq in E. subst s'. destruct (String.eqb s s0) eqn:E0.
+      * apply String.eqb_eq in E0. subst s0. fold (targets_of s acc).
+        rewrite (targets_of_notin acc s Hnot). rewrite !app_nil_r. reflexivity.
+      * rewrite app_nil_r. reflexivity.
+    + fold (targets_of s0 (add_link acc s ts)). fold (targets_of s0 acc). rewrite (IH ND'), app_assoc. reflexivity.
+Qed.
+
+Theorem merge_links_targets {T} (li : list (string * list T)) s0 : targets_of s0 (merge_links li) = targets_of s0 li.
+Proof.
+  unfold merge_links.
+  assert (G : forall acc, NoDup (map fst acc) ->
+            targets_of s0 (fold_left (fun a l => add_link a (fst l) (snd l)) li acc) = (targets_of s0 acc ++ targets_of s0 li)%list).
+  { induction li as [|[s ts] li IH]; intros acc H; cbn [fold_left fst snd].
+    - cbn. rewrite app_nil_r. reflexivity.
+    - rewrite IH by (apply add_link_nodup; exact H). rewrite add_link_targets by exact H.
+      cbn [targets_of flat_map fst snd]. rewrite <- app_assoc. reflexivity. }
+  rewrite G by constructor. reflexivity.
+Qed.
